@@ -757,9 +757,16 @@ package spine
 
 // ---------------------------------------------------------------------------------------
 // further roots of the safety sweep (C05): inbound entry point and the discovery handlers
+// every inbound message that references one of our requests re-enables that request (the reference is handed to the
+// sender's de-duplication cache) BEFORE the command is processed and whether or not processing succeeds (C13)
 //@ func (*DeviceRemote).HandleSpineMesssage safety-root
 //@   assumes d != nil && d.sender != nil && d.localDevice != nil
-//@   modifies @RESP, @PUBLISH, @WRITE, world, held, spawn, hmn, sendfails, map(gomap[model.MsgCounterType]string)
+//@   requires d != nil && d.sender != nil && d.localDevice != nil
+//@   define REF = datagram.Datagram.Header.MsgCounterReference
+//@   ensures[C13] reference-released-first: result1 == nil && REF != nil ==> prn == old(prn) + 1 && at(ProcessCmd, prn) == old(prn) + 1 && prsender[old(prn)] == d.sender && prref[old(prn)] == REF
+//@   ensures[C13] no-reference-no-release: result1 == nil && REF == nil ==> prn == old(prn)
+//@   ensures[C13] undecodable-ignored: result1 != nil ==> prn == old(prn) && hmn == old(hmn)
+//@   modifies @RESP, @PUBLISH, @WRITE, world, held, spawn, hmn, sendfails, map(gomap[model.MsgCounterType]string), prn, prsender, prref, @SETLOG, cells(model.Datagram)
 
 //@ func (*DeviceRemote).AddEntityAndFeatures safety-root
 //@   assumes d != nil && d.Device != nil && data != nil && forall i int :: 0 <= i && i < len(d.entities) ==> d.entities[i] != nil
@@ -1225,3 +1232,46 @@ package spine
 //@   ensures[C06] type: (description != nil && description.DeviceType != nil ==> d.Device.dType == old(description.DeviceType)) && (!(description != nil && description.DeviceType != nil) ==> d.Device.dType == old(d.Device.dType))
 //@   ensures[C06] feature-set: (description != nil && description.NetworkFeatureSet != nil ==> d.Device.featureSet == old(description.NetworkFeatureSet)) && (!(description != nil && description.NetworkFeatureSet != nil) ==> d.Device.featureSet == old(d.Device.featureSet))
 //@   modifies d.Device.address, d.Device.dType, d.Device.featureSet
+
+// ---------------------------------------------------------------------------------------
+// client-side caches of a local feature (C10, C06): teardown of a peer / of one of its entities drops exactly the
+// cached references to that peer (and that entity) and nothing else
+//@ define refNN(L) = forall j int :: 0 <= j && j < len(L) ==> L[j] != nil
+//@ func (*FeatureLocal).CleanRemoteDeviceCaches
+//@   requires r != nil && refNN(r.subscriptions) && refNN(r.bindings)
+//@   let S0 = r.subscriptions
+//@   let B0 = r.bindings
+//@   define ofDev(it) = it.Device != nil && *it.Device == *remoteAddress.Device
+//@   define kept(it) = !ofDev(it)
+//@   filter FS loop 0 src S0 keep kept
+//@   filter FB loop 1 src B0 keep kept
+//@   ensures[C10] nil-noop: remoteAddress == nil || remoteAddress.Device == nil ==> r.subscriptions == S0 && r.bindings == B0
+//@   ensures[C10] subscriptions: remoteAddress != nil && remoteAddress.Device != nil ==> len(r.subscriptions) == FScnt(len(S0)) && forall j int :: 0 <= j && j < len(S0) && kept(S0[j]) ==> r.subscriptions[FScnt(j)] == old(S0[j])
+//@   ensures[C10] bindings: remoteAddress != nil && remoteAddress.Device != nil ==> len(r.bindings) == FBcnt(len(B0)) && forall j int :: 0 <= j && j < len(B0) && kept(B0[j]) ==> r.bindings[FBcnt(j)] == old(B0[j])
+//@   modifies r.subscriptions, r.bindings, held
+//@   loop 0 invariant acc: subscriptions == nil || freshPre(subscriptions)
+//@   loop 0 invariant len: len(subscriptions) == FScnt($k) && $s == S0
+//@   loop 0 invariant elems: forall j int :: 0 <= j && j < $k && kept($s[j]) ==> subscriptions[FScnt(j)] == $s[j]
+//@   loop 1 invariant acc: bindings == nil || freshPre(bindings)
+//@   loop 1 invariant len: len(bindings) == FBcnt($k) && $s == B0
+//@   loop 1 invariant elems: forall j int :: 0 <= j && j < $k && kept($s[j]) ==> bindings[FBcnt(j)] == $s[j]
+
+//@ func (*FeatureLocal).CleanRemoteEntityCaches
+//@   requires r != nil && refNN(r.subscriptions) && refNN(r.bindings)
+//@   let S0 = r.subscriptions
+//@   let B0 = r.bindings
+//@   define valid = remoteAddress != nil && remoteAddress.Device != nil && remoteAddress.Entity != nil
+//@   define ofEnt(it) = it.Device != nil && it.Entity != nil && *it.Device == *remoteAddress.Device && deepEqual(it.Entity, remoteAddress.Entity)
+//@   define kept(it) = !ofEnt(it)
+//@   filter FS loop 0 src S0 keep kept
+//@   filter FB loop 1 src B0 keep kept
+//@   ensures[C10,C06] invalid-noop: !valid ==> r.subscriptions == S0 && r.bindings == B0
+//@   ensures[C10,C06] subscriptions: valid ==> len(r.subscriptions) == FScnt(len(S0)) && forall j int :: 0 <= j && j < len(S0) && kept(S0[j]) ==> r.subscriptions[FScnt(j)] == old(S0[j])
+//@   ensures[C10,C06] bindings: valid ==> len(r.bindings) == FBcnt(len(B0)) && forall j int :: 0 <= j && j < len(B0) && kept(B0[j]) ==> r.bindings[FBcnt(j)] == old(B0[j])
+//@   modifies r.subscriptions, r.bindings, held
+//@   loop 0 invariant acc: subscriptions == nil || freshPre(subscriptions)
+//@   loop 0 invariant len: len(subscriptions) == FScnt($k) && $s == S0
+//@   loop 0 invariant elems: forall j int :: 0 <= j && j < $k && kept($s[j]) ==> subscriptions[FScnt(j)] == $s[j]
+//@   loop 1 invariant acc: bindings == nil || freshPre(bindings)
+//@   loop 1 invariant len: len(bindings) == FBcnt($k) && $s == B0
+//@   loop 1 invariant elems: forall j int :: 0 <= j && j < $k && kept($s[j]) ==> bindings[FBcnt(j)] == $s[j]
